@@ -113,9 +113,9 @@ func (bf *buffer) Close() error {
 	bf.pcond.Broadcast()
 	bf.pcond.L.Unlock()
 
-	bf.pcond.L.Lock()
+	bf.ccond.L.Lock()
 	bf.ccond.Broadcast()
-	bf.pcond.L.Unlock()
+	bf.ccond.L.Unlock()
 
 	return nil
 }
@@ -264,6 +264,7 @@ func (bf *buffer) Read(p []byte) (int, error) {
 		bf.ccond.L.Lock()
 		for ppos = bf.pseq.get(); cpos >= ppos; ppos = bf.pseq.get() {
 			if bf.isDone() {
+				bf.ccond.L.Unlock()
 				return 0, io.EOF
 			}
 
@@ -318,8 +319,9 @@ func (bf *buffer) ReadPeek(n int) ([]byte, error) {
 
 	// If there's no data, then let's wait until there is some data
 	bf.ccond.L.Lock()
-	for ; cpos >= ppos; ppos = bf.pseq.get() {
+	for ppos = bf.pseq.get(); cpos >= ppos; ppos = bf.pseq.get() {
 		if bf.isDone() {
+			bf.ccond.L.Unlock()
 			return nil, io.EOF
 		}
 
@@ -381,8 +383,9 @@ func (bf *buffer) ReadWait(n int) ([]byte, error) {
 
 	// If there's no data, then let's wait until there is some data
 	bf.ccond.L.Lock()
-	for ; next > ppos; ppos = bf.pseq.get() {
+	for ppos = bf.pseq.get(); next > ppos; ppos = bf.pseq.get() {
 		if bf.isDone() {
+			bf.ccond.L.Unlock()
 			return nil, io.EOF
 		}
 
@@ -537,6 +540,7 @@ func (bf *buffer) waitForWriteSpace(n int) (int64, int, error) {
 		bf.pcond.L.Lock()
 		for cpos = bf.cseq.get(); wrap > cpos; cpos = bf.cseq.get() {
 			if bf.isDone() {
+				bf.pcond.L.Unlock()
 				return 0, 0, io.EOF
 			}
 
